@@ -433,6 +433,16 @@ def bytes_method(ex, recv, name, args, kwargs):
             if not ex.branch(M.compare(ex, ast.GtE(), r, 0)):
                 ex.raise_(ValueError, 'subsection not found')
         return r
+    if name in ('ljust', 'rjust') and not isinstance(recv, bytes):
+        width = M.plain(args[0])
+        fill = args[1] if len(args) > 1 else b' '
+        n = conc_int(z3.Length(zbytes(recv)))
+        if isinstance(width, int) and isinstance(fill, bytes) and len(fill) == 1 and n is not None:
+            if n >= width:
+                return recv
+            pad = bytes_lit(fill * (width - n))
+            return mk_bytes(z3.Concat(zbytes(recv), pad) if name == 'ljust' else z3.Concat(pad, zbytes(recv)))
+        raise Unsupported(f'bytes.{name} on data of symbolic length')
     if name == 'count' or name in ('split', 'strip', 'rstrip', 'lstrip', 'replace', 'partition', 'splitlines', 'ljust', 'rjust'):
         if isinstance(recv, bytes) and all(ex.is_conc(a) for a in args):
             return getattr(recv, name)(*args, **kwargs)
@@ -670,6 +680,8 @@ def build_bytes_from_items(ex, items):
             if not (0 <= x <= 255):
                 ex.raise_(ValueError, 'bytes must be in range(0, 256)')
             parts.append(z3.Unit(z3.IntVal(int(x))))
+        elif M.is_known_byte(ex, x):
+            parts.append(z3.Unit(zint(x)))
         else:
             t = zint(x)
             if not ex.spec_mode:
@@ -699,6 +711,17 @@ def int_to_bytes(ex, v, length=1, byteorder='big', *, signed=False):
             raise PyExc(e)
     t = zint(v)
     lim = 1 << (8 * length)
+    fields = M.bf_get(ex, v) if not signed else None
+    if fields is not None and all(off + w <= 8 * length for (_, off, w) in fields):
+        # assembled from disjoint bit fields that all lie below 8*length bits: in range, and each
+        # output byte is a function of the (at most two) fields that overlap it
+        units = [z3.Unit(M.bf_byte(fields, i)) for i in range(length)]
+        if byteorder == 'big':
+            units.reverse()
+        if not units:
+            return b''
+        r = mk_bytes(z3.Concat(*units) if len(units) > 1 else units[0])
+        return r
     if signed:
         ok = z3.And(t >= -(lim // 2), t < lim // 2)
     else:
@@ -735,14 +758,20 @@ def int_from_bytes(ex, b, byteorder='big', *, signed=False):
     if n is None:
         raise Unsupported('int.from_bytes of a string of symbolic length')
     total = z3.IntVal(0)
+    fields = []
     for i in range(n):
         byte = M.read_byte(ex, b.t, z3.IntVal(i))
         p = i if byteorder == 'little' else n - 1 - i
         total = total + zint(byte) * (1 << (8 * p))
+        fields.append((zint(byte), 8 * p, 8))
     if signed and n:
         lim = 1 << (8 * n)
         total = z3.If(total >= lim // 2, total - lim, total)
-    return mk_int(total)
+        return mk_int(total)
+    r = mk_int(total)
+    if n > 4:
+        r = M.name_int(ex, r, 'ifb')  # one name for the big sum keeps later terms small
+    return M.bf_set(ex, r, fields)
 
 
 _STRUCT_CODES = {'b': (1, True), 'B': (1, False), 'h': (2, True), 'H': (2, False), 'i': (4, True), 'I': (4, False),
@@ -1309,6 +1338,47 @@ CLASS_MODELS = {
     zip: m_zip,
     reversed: m_reversed,
 }
+
+
+def m_map(ex, f, *its):
+    lists = [ex.concrete_iter(i) for i in its]
+    if any(l is None for l in lists):
+        raise Unsupported('map over symbolic iterable')
+    return ConcIter([ex.call(f, list(t), {}) for t in zip(*lists)])
+
+
+def _m_operator(op):
+    return lambda ex, a, b: M.binop(ex, op, a, b)
+
+
+import operator as _operator  # noqa: E402
+import secrets as _secrets  # noqa: E402
+
+
+def m_token_bytes(ex, n=32):
+    """secrets.token_bytes(n): any byte string of length n (fresh symbolic content)"""
+    n = M.plain(n)
+    if not isinstance(n, int):
+        raise Unsupported('token_bytes with symbolic length')
+    if n == 0:
+        return b''
+    units = []
+    for i in range(n):
+        b = z3.Int(ex.fresh_name(f'rnd[{i}]'))
+        ex.add_def(z3.And(b >= 0, b <= 255))
+        M.mark_byte(ex, b)
+        units.append(z3.Unit(b))
+    return mk_bytes(units[0] if n == 1 else z3.Concat(*units))
+
+
+NATIVE_MODELS[_secrets.token_bytes] = m_token_bytes
+
+NATIVE_MODELS[_operator.xor] = _m_operator(ast.BitXor())
+NATIVE_MODELS[_operator.and_] = _m_operator(ast.BitAnd())
+NATIVE_MODELS[_operator.or_] = _m_operator(ast.BitOr())
+NATIVE_MODELS[_operator.add] = _m_operator(ast.Add())
+NATIVE_MODELS[_operator.sub] = _m_operator(ast.Sub())
+CLASS_MODELS[map] = m_map
 
 
 def m_deque(ex, *args, **kw):
